@@ -570,19 +570,19 @@ class Check(DiffCheck):
         return len(d['iov']) > 1 or self._ref(d) is None or d['ops'][0] != '~'
 
     def known_class(self, case):
-        # F23: CheckedMessage accumulates the CRC in m_checksum, which lies inside the hashed body; the final value is
+        # F25: CheckedMessage accumulates the CRC in m_checksum, which lies inside the hashed body; the final value is
         # crc32c(body[4:]) and does not depend on the variable-length fields.  Class = an altered valid checked stream whose
         # alteration lies in front of the body.  Only a LISTED finding suppresses the violation.
         t = case.split(' ')
         if t[0] == 'D' and t[7] == '~x':
             if not hasattr(self, '_listed'):
                 self._listed = {f.get('id') for f in load_known_findings(self.id) if f.get('status') == 'known'}
-            if 'F23' in self._listed:
+            if 'F25' in self._listed:
                 d = self._p(case)
                 size, checked, fs = parse_shape(d['shape'])
                 body = d['flat'][len(d['flat']) - size:]
                 if checked and len(d['flat']) >= size and struct.unpack_from('<I', body, 0)[0] == crc32c(body[4:]):
-                    return 'F23'
+                    return 'F25'
         return None
 
     # ------------------------------------------------------------------ the property, evaluated on the implementation's output
